@@ -389,3 +389,25 @@ Section Facts.
     - right. unfold Step.walk_stride. cbn [peek]. rewrite Hs. cbn. auto.
   Qed.
 End Facts.
+
+(** ---- the names the engine model writes on an error ---------------------------------
+    [error_bindings], the bindings of a failed action in [step] and
+    [error_node_literal] use the names harness/cmd/genconsts reads from
+    Spec.Step and Spec.Walk in the source of the tree under test
+    (Gen/Names.v).  They are the names the rule of Spec/StepRule.v and the
+    statements of Properties/C07.v and C18.v are written with (core/spec.go
+    documents "actionError" and the node named 'error').  An edit of one of
+    the literals in the source changes Gen/Names.v and this proof (with the
+    proofs of Proofs/StepRuleProofs.v and Proofs/EngineFacts.v) no longer
+    goes through. *)
+Theorem error_names_documented :
+  step_action_error_key = "actionError" /\ step_error_key = "error"
+  /\ step_last_node_key = "lastNode" /\ step_last_bindings_key = "lastBindings"
+  /\ error_node_literal = "error".
+Proof. repeat split; reflexivity. Qed.
+
+Theorem error_bindings_documented : forall base text from,
+  error_bindings base text from
+  = bset "lastBindings" (JObj (copy_bs (st_bs from)))
+      (bset "lastNode" (JStr (st_node from)) (bset "error" text base)).
+Proof. reflexivity. Qed.
